@@ -42,7 +42,7 @@ def plan(tier):
         I.append(inst(f"kernel[{shape},rank={rank}]", 'harness.c18', 'kernel', dict(shape=shape, rank=rank), weight=5 * shape[0] * shape[1], timeout_s=1200, opts=dict(max_vars=64)))
     I.append(inst("sphere_through[k=1]", 'harness.c18', 'sphere_through', dict(k=1), weight=200, timeout_s=1200))
     if not q:
-        I.append(inst("sphere_through[k=2]", 'harness.c18', 'sphere_through', dict(k=2), weight=600, timeout_s=3000))
+        I.append(inst("sphere_through[k=2]", 'harness.c18', 'sphere_through', dict(k=2), weight=600, timeout_s=1500))
     for which in ('short_arc', 'right_to_left', 'arc_include'):
         I.append(inst(f"arcs[{which},single pair]", 'harness.c18', 'arcs', dict(which=which, batch=1), weight=40, timeout_s=900, opts=dict(max_paths=1024)))
         if not (q and which == 'arc_include'):
